@@ -142,6 +142,9 @@
 //!               are gone new clients (fresh token, new id) join on a spare relay slot or on a leaver's; the sessions nobody
 //!               ended keep exchanging messages all the time; traffic of everybody present, heal, `note healed` (C11: a
 //!               well-behaved client's traffic keeps flowing whatever other clients do), ends, `note settled`
+//!  tp-unconfirmed  tokens expiring (3-5 s) before the time-out (10-15 s); one client is never updated again from the moment
+//!               the server accepted its response (unconfirmed session), 0-2 ordinary sessions; lossless rounds past expiry and
+//!               time-out; `note settled`
 //!
 //! # Oracles (prop C20; all pure functions of (ops, outs))
 //!  tp-lockstep        (a) every t-state right after a t-supd: rc = nc, nn = |nc|, rd = [], bad = []
@@ -2181,6 +2184,39 @@ fn script_rejoin(rng: &mut Rng, _tier: Tier, ex: &mut dyn FnMut(&str) -> String)
     d.settle();
 }
 
+/// profile 7: connect tokens that expire (3-5 s) long before the time-out (10-15 s); one client falls silent at the very
+/// moment the server has accepted its connection response (it is never updated again: the server hears no keep-alive of
+/// it, the session stays unconfirmed); 0-2 ordinary sessions next to it; lossless rounds past the token's expiry and past
+/// the time-out: the session ends by time-out, with its event, and not before; `note settled`
+fn script_unconfirmed(rng: &mut Rng, _tier: Tier, ex: &mut dyn FnMut(&str) -> String) {
+    let tag = rng.0;
+    let n = rng.range(1, 3) as usize;
+    let v = rng.below(n as u64) as usize;
+    let maxc = n + rng.below(2) as usize;
+    let timeout_s = rng.pick(&[10u64, 15]);
+    let expire_s = rng.pick(&[3u64, 5]);
+    let mut d = Drv::start(ex, tag, n, maxc, timeout_s, expire_s, n, &["lossless"]);
+    let dt = rng.pick(&[50_000u64, 100_000, 250_000]);
+    let vid = 100 + v as u64;
+    for _ in 0..8 {
+        d.round_lossless(rng, dt, 1);
+        if d.st.nc.contains(&vid) {
+            break;
+        }
+    }
+    d.disc(Disc::Silent, v);
+    for _ in 0..rng.range(1, 3) {
+        d.round_lossless(rng, dt, 1);
+        d.reads(rng, false);
+    }
+    d.wait_lossless(rng, 500_000);
+    for _ in 0..3 {
+        d.round_lossless(rng, dt, 1);
+    }
+    d.reads(rng, true);
+    d.settle();
+}
+
 fn nontrivial(t: &Trace) -> bool {
     t.outs.iter().any(|o| o.starts_with("connected ")) && t.outs.iter().any(|o| o.starts_with("msg ") || (o.starts_with("msgs ") && !o.starts_with("msgs 0")))
 }
@@ -2247,6 +2283,16 @@ pub fn profiles() -> Vec<Profile> {
             script: script_rejoin,
             // somebody joined after somebody else had left, and messages went on
             nontrivial: |t| nontrivial(t) && t.ops.iter().any(|o| o.starts_with("t-cnew ")),
+            keep: keep_cfg,
+            fixed: None,
+        },
+        Profile {
+            name: "tp-unconfirmed",
+            props: &["C20"],
+            cases: |t| tier_cases(t, 12, 100),
+            new_world,
+            script: script_unconfirmed,
+            nontrivial: |t| t.outs.iter().any(|o| o.starts_with("connected ")) && t.ops.iter().any(|o| o.starts_with("note silent")),
             keep: keep_cfg,
             fixed: None,
         },
